@@ -774,6 +774,36 @@ pub async fn drive(
 /// `T::zvt_parse(frame)` of the sequence's reply enum: does the library
 /// itself consider this frame decodable? (C06 decides "undecodable"
 /// adaptively and never disagrees with the parser about what failure is.)
+/// `Debug` of what the sequence's reply parser returns for `bytes` handed to it directly
+/// (None = error); Err = it panicked.
+pub fn library_parse_debug(id: SeqId, bytes: &[u8]) -> Result<Option<String>, (String, String)> {
+    use zvt::ZvtParser;
+    use SeqId::*;
+    fn d<T: std::fmt::Debug, E>(r: Result<T, E>) -> Option<String> {
+        r.ok().map(|v| format!("{:?}", v))
+    }
+    let f = || -> Option<String> {
+        match id {
+            Registration => d(sequences::RegistrationResponse::zvt_parse(bytes)),
+            ReadCard => d(sequences::ReadCardResponse::zvt_parse(bytes)),
+            Initialization => d(sequences::InitializationResponse::zvt_parse(bytes)),
+            SetTerminalId => d(sequences::SetTerminalIdResponse::zvt_parse(bytes)),
+            ResetTerminal => d(sequences::ResetTerminalResponse::zvt_parse(bytes)),
+            Diagnosis => d(sequences::DiagnosisResponse::zvt_parse(bytes)),
+            EndOfDay => d(sequences::EndOfDayResponse::zvt_parse(bytes)),
+            Authorization | Reservation => d(sequences::AuthorizationResponse::zvt_parse(bytes)),
+            PartialReversal | PreAuthReversal => d(sequences::PartialReversalResponse::zvt_parse(bytes)),
+            PrintSystemConfiguration => d(sequences::PrintSystemConfigurationResponse::zvt_parse(bytes)),
+            SelectLanguage => d(sequences::SelectLanguageResponse::zvt_parse(bytes)),
+            StatusEnquiry => d(sequences::StatusEnquiryResponse::zvt_parse(bytes)),
+            GetSystemInfo => d(feig::sequences::GetSystemInfoResponse::zvt_parse(bytes)),
+            FactoryReset => d(feig::sequences::FactoryResetResponse::zvt_parse(bytes)),
+            ChangeHostConfiguration => d(feig::sequences::ChangeHostConfigurationResponse::zvt_parse(bytes)),
+        }
+    };
+    crate::framework::guarded(f)
+}
+
 pub fn library_parses(id: SeqId, frame: &[u8]) -> Result<bool, (String, String)> {
     use zvt::ZvtParser;
     use SeqId::*;
